@@ -123,6 +123,19 @@ func TestWorker(t *testing.T) {
 		emit(map[string]any{"kind": "result", "result": res})
 	case "shrink":
 		workerShrink(t, &job, emit)
+	case "trace":
+		for k := job.Count; k > 0; k-- { // warm-up runs (state leakage hunting)
+			i := job.From - k
+			Execute(t, job.Property, pickScenario(scs, i), simrt.Mix(job.BaseSeed, uint64(i)+0x1000), job.Tier, ExecOpts{})
+		}
+		sc := pickScenario(scs, job.From)
+		seed := simrt.Mix(job.BaseSeed, uint64(job.From)+0x1000)
+		res := Execute(t, job.Property, sc, seed, job.Tier, ExecOpts{Trace: true, Keep: true})
+		for _, l := range res.Trace {
+			w.WriteString(l)
+			w.WriteByte('\n')
+		}
+		fmt.Fprintf(w, "END digest=%s steps=%d failures=%v\n", res.Digest, res.Steps, res.Failures)
 	}
 }
 
